@@ -29,7 +29,7 @@ USE_CONTRACTS = True      # in-situ icontract monitors (vmon/contracts.py)
 SPLIT_KINDS = True         # thorough tier: one shard per geometry kind
 DECIDING_COUNTERS = ["ops_checked"]
 
-PROVS = ["from_pandas", "filter", "cached-filter", "set_geometry", "pack_partitions", "parquet",
+PROVS = ["from_pandas", "filter", "cached-filter", "set_geometry", "build_sindex", "pack_partitions", "parquet",
          "parquet-geometry", "parquet-bounds", "parquet-filter", "pack_to_parquet"]
 
 
@@ -126,6 +126,8 @@ def check_case(ctx, case):
                 thr = float(df["val"].quantile(0.3))
                 thr2 = float(df["val"].quantile(0.8))
                 ddf = base[(base["val"] >= thr) & (base["val"] <= thr2)]
+            elif prov == "build_sindex":
+                ddf = base.build_sindex(page_size=int(case["seed"] % 3) + 1)
             elif prov == "set_geometry":
                 ddf = base.set_geometry("other")
                 act = "other"
